@@ -232,6 +232,9 @@ void Cleaner::DoCleanRule(const Rule* rule) {
 
   for (vector<Edge*>::iterator e = state_->edges_.begin();
        e != state_->edges_.end(); ++e) {
+    // Do not try to remove phony targets (`-t clean -r phony`)
+    if ((*e)->is_phony())
+      continue;
     if ((*e)->rule().name() == rule->name()) {
       for (vector<Node*>::iterator out_node = (*e)->outputs_.begin();
            out_node != (*e)->outputs_.end(); ++out_node) {
